@@ -26,7 +26,11 @@ func c16Strip(s string) string {
 	return string(out)
 }
 
-var c16Heads = []string{"", "REMOTE|h|100|1|f|", "REMOTE", "CLIENT|", "SERVER|h", "AGGREGATE|h|", "A", ".syn close connection", "AGGREGATE|h|k∥3∥count(x)≔", "AGGREGATE|h|k∥x∥count(x)≔1∥"}
+var c16Heads = []string{"", "REMOTE|h|100|1|f|", "REMOTE", "CLIENT|", "SERVER|h", "AGGREGATE|h|", "A", ".syn close connection", "AGGREGATE|h|k∥3∥count(x)≔", "AGGREGATE|h|k∥x∥count(x)≔1∥",
+	// heads 10-12 have a tail after the arbitrary bytes (c16Tails): complete aggregate records
+	"AGGREGATE|h|k∥3∥count(x)≔", "AGGREGATE|h|k∥3∥last(y)≔", "AGGREGATE|h|k∥"}
+
+var c16Tails = map[int]string{10: "∥", 11: "∥count(x)≔1∥", 12: "∥count(x)≔2∥last(y)≔v∥"}
 
 // VerifC16bWire: a server message stream (head + n arbitrary ESC-free bytes
 // + delimiter) into each client handler, colours on/off: no crash; in colour
@@ -46,6 +50,7 @@ func VerifC16bWire(handler, head, n int) {
 		verifrt.Assume(body[i] != 0x1b)
 	}
 	stream := append([]byte(c16Heads[head]), body...)
+	stream = append(stream, c16Tails[head]...)
 	stream = append(stream, 0xAC)
 
 	var write func(p []byte) (int, error)
